@@ -73,3 +73,9 @@ Proof. vm_compute. reflexivity. Qed.
 Example C18_udp_example :
   udp_relay_response (AV4 1 2 3 4) 80 [120; 121] = [0; 0; 0; 1; 1; 2; 3; 4; 0; 80; 120; 121].
 Proof. vm_compute. reflexivity. Qed.
+
+(* the tunnel client's SOCKS5 listener selects "no authentication" iff it is offered, at any position of the list *)
+Theorem C18_client_selects_noauth : forall r ms rest o,
+  v5_read_auth_methods r = Done ms rest -> client_dialog5 (5 :: r) = Some o ->
+  (In 0 ms -> firstn 2 o = [5; 0]) /\ (~ In 0 ms -> o = [5; 255]).
+Proof. exact client_selects_noauth. Qed.
